@@ -60,6 +60,7 @@ class Shape:
         self.sid, self.name, self.fields, self.vis, self.derives, self.soa_derives, self.soa_attrs = sid, name, fields, vis, derives, soa_derives, soa_attrs
         self.nested, self.drop, self.cls, self.note = nested, drop, cls, note
         self.extra = ""     # extra items of the module (uses of what the declaration asked for)
+        self.soa_derives2 = None   # a second #[soa_derive(...)] attribute on the same struct
         self.no_import = False   # derive through the path `soa_derive::StructOfArray`, nothing imported (the `#[macro_use] extern crate` style)
         # fields: [(vis, name, type, is_nested)]
 
@@ -74,6 +75,7 @@ class Shape:
         der = [self.derive_path] + self.derives
         out.append(f"#[derive({', '.join(der)})]")
         if self.soa_derives: out.append(f"#[soa_derive({', '.join(self.soa_derives)})]")
+        if self.soa_derives2: out.append(f"#[soa_derive({', '.join(self.soa_derives2)})]")
         for k, a in self.soa_attrs: out.append(f"#[soa_attr({k}, {a})]")
         fl = []
         for v, n, t, nest in self.fields:
@@ -180,6 +182,17 @@ def corner_corpus(start_id):
     add([("pub", "only", "u8", False)], note="one field")
     add([("pub", f"f{i}", "u32", False) for i in range(12)], note="twelve fields")
     add([("pub", f"f{i}", "()", False) for i in range(3)], note="all zero-sized")
+    # more fields than std implements its tuple traits for (12)
+    cmp = ("Debug", "Clone", "PartialEq", "Eq", "PartialOrd", "Ord", "Hash")
+    sh = add([("pub", f"f{i}", "u32", False) for i in range(14)], derives=cmp, soa=cmp, note="fourteen fields, every comparison trait")
+    sh.extra = f"/// natural-order sort of a wide struct\npub fn uses(v: &mut {sh.name}Vec) -> usize {{ v.as_mut_slice().sort(); v.len() }}"
+    add([("pub", f"f{i}", "String" if i % 3 == 0 else "u64", False) for i in range(20)], derives=("Debug", "Clone"), soa=("Debug", "Clone"), note="twenty fields")
+    # the requests of several #[soa_derive] attributes add up, in either order
+    for first, second in ((("Clone",), ("Debug", "PartialEq")), (("Debug", "PartialEq"), ("Clone",))):
+        sh = add([("pub", "a", "u8", False), ("pub", "b", "String", False)], derives=("Debug", "Clone", "PartialEq"), soa=first, note=f"two #[soa_derive] attributes: {first} then {second}")
+        sh.soa_derives2 = list(second)
+        sh.extra = (f"fn needs<T: ::std::fmt::Debug + PartialEq + Clone>() {{}}\n/// both attributes are honoured: traits and the cloning API\n"
+                    f"pub fn uses(v: &mut {sh.name}Vec, e: {sh.name}) -> usize {{ needs::<{sh.name}Vec>(); v.resize(3, e); let w = v.as_slice().to_vec(); w.len() }}")
     add([("pub", "z", "Zst", False), ("pub", "x", "u64", False)], derives=("Debug", "Clone"), soa=("Debug", "Clone"), note="ZST + Clone API")
     add([("pub", "o", "Opaque", False)], vis="pub(crate)", derives=(), soa=(), note="non-Clone non-Debug only field")
     add([("", "o", "Opaque", False), ("pub(crate)", "s", "String", False)], vis="", derives=(), soa=(), note="private struct, mixed field visibility")
